@@ -177,3 +177,21 @@ T('neg_const', 'CONST k& = -{a} - {b}\nPRINT k&'.format(a=LA, b=LB), '&&',
 T('neg_locate', 'LOCATE -{a}, {b}'.format(a=A, b=B), '%%', family='device')
 T('neg_idiv_const', 'CONST k% = -{a} \\ -{b}\nPRINT k%'.format(a=A, b=B),
   '%%', family='const')
+
+# powers with a negative or fractional exponent of constant operands (zero
+# to a negative power, a negative number to a fractional power)
+T('asg_exp_neg', 'x# = {a} ^ -{b}\nPRINT x#'.format(a=A, b=B), '%%',
+  pre='b <= 6', family='assign')
+T('const_exp_neg', 'CONST c# = {a} ^ -{b}\nPRINT c#'.format(a=A, b=B), '%%',
+  pre='b <= 6', family='const')
+T('asg_exp_neg_l', 'y& = {a} ^ -{b}\nPRINT y&'.format(a=LA, b=LB), '&&',
+  pre='b <= 6', family='assign')
+T('asg_exp_frac', 'x# = (0 - {a}) ^ .5\nPRINT x#'.format(a=A), '%',
+  family='assign')
+T('asg_exp_big', 'y& = {a} ^ {b}\nPRINT y&'.format(a=LA, b=LB), '&&',
+  pre='a <= 2 or b <= 40', family='assign',
+  note='2147483647 ^ 2147483647 must not keep the compiler busy for ever')
+T('dim_expr_bounds', 'DIM v({a} * {b}) AS INTEGER\nPRINT 1'.format(a=A, b=B),
+  '%%', family='dim')
+T('dim_expr_div', 'DIM v({a} / {b} TO {a}) AS INTEGER\nPRINT 1'.format(
+    a=A, b=B), '%%', family='dim')
